@@ -383,3 +383,51 @@ def _mentioned(block):
                 walk(v)
     walk(block)
     return out
+
+
+def check_relabel_worklist(ctx, F, rule="E-PERM.relabel"):
+    """After the permutation, `update_levels` (parallel) collects the levels whose nodes still carry a stale level
+    number and relabels exactly those.  The work list must hold the numbers of the levels to visit (what
+    `LevelView::level_no` / the position in `manager.levels()` says), never the stale number read from `to_pre`:
+    the two sets differ as soon as an empty level takes part in the permutation, and then some level keeps nodes whose
+    stored level disagrees with the unique table they sit in."""
+    from efreelist import origins
+    fids = [f for f in F.mir if f.startswith("oxidd_reorder::set_var_order::") and f.endswith("::update_levels")
+            or f == "oxidd_reorder::set_var_order::update_levels"]
+    if not ctx.anchor(rule, "oxidd_reorder::set_var_order::update_levels", len(fids) == 1):
+        return 0
+    fid = fids[0]
+    m = F.mir[fid]
+    B = cfg.Body(m)
+    pushes = [(i, t) for i, t in B.calls() if not m["blocks"][i]["c"] and re.search(r"Vec::<T, A>::push$", cfg.callee_name(t) or "")]
+    if not ctx.anchor(rule, "work-list push in update_levels", len(pushes) >= 1):
+        return 0
+    n = 0
+    for i, t in pushes:
+        org = origins(B, m, [t["a"][1]])
+        names = [cfg.callee_name(o[1]) or "" for o in org if o[0] == "call"]
+        position = any(re.search(r"::level_no$|Enumerate<.*::next$", x) for x in names)
+        stale = [x for x in names if re.search(r"into_inner$|::load$|::get_mut$", x)]
+        ok = position and not stale
+        n += 1
+        ctx.ob(rule, "%s:push#%d" % (rule, n), ok,
+               "%s (%s): %s" % (F.nice(fid), F.where(fid),
+                                "the relabel work list receives the level's own number" if ok else
+                                "the value pushed onto the relabel work list derives from %s, not from the position of the level "
+                                "(LevelView::level_no): levels are selected by the stale number their nodes carry"
+                                % (sorted({x.rsplit('::', 2)[-2] + '::' + x.rsplit('::', 1)[-1] for x in names}) or "no call")))
+    # the closure run by the workers relabels the level it looked up with the work-list element
+    clos = [f for f in F.mir if f.startswith(fid + "::{closure")]
+    for c in clos:
+        mc = F.mir[c]
+        Bc = cfg.Body(mc)
+        ups = [(i, t) for i, t in Bc.calls() if (cfg.callee_name(t) or "").endswith("::update_level_no")]
+        for i, t in ups:
+            org = origins(Bc, mc, [t["a"][1]])
+            names = [cfg.callee_name(o[1]) or "" for o in org if o[0] == "call"]
+            ok = any(re.search(r"::level_unchecked$|::level$", x) for x in names)
+            ctx.ob(rule, "%s:closure" % rule, ok,
+                   "%s (%s): %s" % (F.nice(c), F.where(c), "relabels the level view looked up from the work-list element" if ok
+                                    else "update_level_no is not applied to the level looked up from the work-list element"))
+            n += 1
+    return n
